@@ -279,7 +279,8 @@ def symmetry(ctx, g, dims, kind, axis=None, perm=None, tvd=None, periodic_axis=N
     expected = fmap(res_lo)
     tag = 'C08/%s/%s/%s/%s%s%s' % (kind, g, 'x'.join(map(str, dims)),
                                    ('ax%d' % axis) if axis is not None else 'perm' + ''.join(map(str, perm)), '/tvd' if tvd else '',
-                                   '' if (upwind and others) else ('/upwind_only' if upwind else '/no_upwind'))
+                                   ('' if (upwind and others) else ('/upwind_only' if upwind else '/no_upwind')) +
+                                   ('/periodic%d' % periodic_axis if periodic_axis is not None else ''))
     for cc in scen.all_cells(hi.dims):
         nout = scen.n_out(cc, hi.dims)
         if nout > 1:
@@ -317,6 +318,13 @@ def scenarios(tier):
             for tvd in ((None,) if q and g == 'Grid3D' else (None, 'SUPERBEE')):
                 T.append({'name': 'perm/%s/%s%s' % (g, ''.join(map(str, perm)), '/tvd' if tvd else ''), 'fn': 'pv.props.c08:symmetry',
                           'params': {'g': g, 'dims': dims, 'kind': 'perm', 'perm': list(perm), 'tvd': tvd}, 'timeout': 60, 'validate': 1})
+            # the same with one axis periodic (arbitrary, also unequal, end cells): relabelling must carry the periodic pair along
+            for pax in range(len(dims)):
+                if q and g == 'Grid3D' and perm != perms[-1] and pax != 2:
+                    continue
+                T.append({'name': 'perm/%s/%s/periodic%d' % (g, ''.join(map(str, perm)), pax), 'fn': 'pv.props.c08:symmetry',
+                          'params': {'g': g, 'dims': dims, 'kind': 'perm', 'perm': list(perm), 'tvd': None, 'periodic_axis': pax},
+                          'timeout': 60, 'validate': 1})
     for g, dims in (('Grid1D', [3]), ('Grid2D', [2, 3]), ('Grid3D', [2, 2, 2])):
         for axis in range(len(dims)):
             T.append({'name': 'mirror/%s/ax%d' % (g, axis), 'fn': 'pv.props.c08:symmetry',
